@@ -1,7 +1,7 @@
 PLAN = dict(
     id="C14",
     pkg="c14", level="exploration",
-    rule=("One case = (draft, record size rs, payload, NewDecoder limit, destination-buffer size sequence). Oracle: Encode must not fail; its output "
+    rule=("One case = (draft, record size rs, payload, NewDecoder limit, destination-buffer size sequence, kind of source reader: bytes.Reader or a plain io.Reader handing out at most 1/2/7/8/9/512/4096.. octets per Read). Oracle: Encode must not fail; its output "
           "octets and the returned digest string equal those of refmice (the drafts' recursive proof definition: proof(last)=SHA-256(rec||0), "
           "proof(i)=SHA-256(rec_i||proof(i+1)||1), stream = 8-octet rs, rec_0, proof(1), rec_1, ..., last record; draft-02/03 empty-payload special "
           "cases; base64url-unpadded vs padded standard base64); NewDecoder on that output with the returned digest, read through the given "
@@ -19,6 +19,6 @@ PLAN = dict(
                 "The oracle is an independent implementation of the drafts' recursive definition checked against the drafts' own example vectors. "
                 "Exploration level: payload contents beyond PRNG filler are irrelevant to a hash chain; the length/record-size lattice is what is explored."),
     level_note=NOTE_BASE,
-    require=[("exh", "empty"), ("exh", "exact-multiple"), ("exh", "multi-record"), ("exh", "single-record"), ("exh", "rs=1"),
+    require=[("exh", "empty"), ("exh", "exact-multiple"), ("exh", "multi-record"), ("exh", "single-record"), ("exh", "rs=1"), ("exh", "source:first-read-shorter-than-size-field"), ("rapid", "source:plain-reader"),
              ("rapid", "exact-multiple"), ("rapid", "multi-record"), ("rapid", "rs>=16383"), ("rapid", "draft02"), ("rapid", "draft03")],
 )
